@@ -24,7 +24,7 @@ class S(Spec):
     prop_file = "Properties/C18.v"
     case_module = "Clock.OverlayCases"
     model_targets = ["Clock/OverlayCases.vo"]
-    bins = [("c18", "debug", 2600, 40000, []), ("c18", "release", 1300, 20000, [])]
+    bins = [("c18", "debug", 2600, 20000, []), ("c18", "release", 1300, 10000, [])]
     allowed_axioms = PRIMS | {"FloatAxioms.SF2Prim_Prim2SF", "SF2Prim_Prim2SF", "Axioms"}  # "Axioms" = the header line of Print Assumptions, matched by vlib's name regex
     trusted_base = [
         "Coq 8.16.1 kernel, coqc, vm_compute (no native_compute), including the kernel's primitive Int63 / Float64 operations (PrimInt63.*, PrimFloat.* are reported by Print Assumptions as primitives, not logical axioms)",
